@@ -97,7 +97,7 @@ fn draw_edit(ch: &Choices) -> Edit {
         13 => Edit::Oversize,
         14 => Edit::CallbackErr,
         _ => {
-            if ch.draw("edit.max", 3) == 0 {
+            if ch.draw("edit.max", 24) == 0 {
                 Edit::AddMaxApplication(ch.draw("edit.max.below", 4) as u32)
             } else {
                 Edit::Nothing
